@@ -1515,7 +1515,11 @@ func (v *Verifier) loadAddr(st *State, p Value, in ssa.Instruction) Value {
 		if _, elemT, ok := isStructPtr(p.GoT); ok {
 			return v.env.loadStruct(st, elemT, p.T)
 		}
-		v.unsupportedf("load through unsupported pointer %s : %s", p.T, typeName(p.GoT))
+		if ca := v.cellAddrOf(p); ca != nil {
+			p.Addr = ca
+		} else {
+			v.unsupportedf("load through unsupported pointer %s : %s", p.T, typeName(p.GoT))
+		}
 	}
 	a := p.Addr
 	v.noteAddr(a)
@@ -1553,13 +1557,36 @@ func (v *Verifier) loadAddr(st *State, p Value, in ssa.Instruction) Value {
 	return cur
 }
 
+// cellAddrOf gives a pointer value that carries no address (one read from a global, a field or a slice) the cell address
+// that freshValue gives a pointer-typed unknown: a pointer to a non-struct, non-array type refers to the cell named by
+// the pointer value in the cell map of its element sort.
+func (v *Verifier) cellAddrOf(p Value) *Addr {
+	if p.GoT == nil || p.Sort != "Int" {
+		return nil
+	}
+	pt, ok := p.GoT.Underlying().(*types.Pointer)
+	if !ok {
+		return nil
+	}
+	switch pt.Elem().Underlying().(type) {
+	case *types.Struct, *types.Array:
+		return nil
+	}
+	es := v.env.sr.sortOf(pt.Elem())
+	return &Addr{Kind: "cell", Map: cellMapName(es), Obj: p.T, ElemT: pt.Elem()}
+}
+
 func (v *Verifier) storeAddr(st *State, p Value, val Value, in ssa.Instruction) {
 	if p.Addr == nil {
 		if _, elemT, ok := isStructPtr(p.GoT); ok {
 			v.env.storeStruct(st, elemT, p.T, val)
 			return
 		}
-		v.unsupportedf("store through unsupported pointer %s", p.T)
+		if ca := v.cellAddrOf(p); ca != nil {
+			p.Addr = ca
+		} else {
+			v.unsupportedf("store through unsupported pointer %s", p.T)
+		}
 	}
 	a := p.Addr
 	v.noteAddr(a)
